@@ -18,16 +18,17 @@ Definition state_code (s : conn_state) : Z :=
   end.
 
 (* One connection history.  gone = Some k: Shutdown closed the idle connection while the first byte of request k
-   was being read (the harness forces this order).  states = the hook calls the implementation made for this connection;
+   was being read (the harness forces this order); xst / stop as in ServeCheck.mk_env; ad = Delegated: the connection looks
+   like TLS and is handed to a NextProto handler, or its handshake fails.  states = the hook calls the implementation made for this connection;
    actives = for every StateActive call: (bytes the client had handed to the connection when the hook ran,
    total length of the requests completed before); cs = the chunks the server's Read calls returned. *)
 Inductive c14case :=
-| C14 (en : entry) (ad : admission) (cfg : scfg) (ops : list (list hop)) (gone : option N) (cs : list bytes) (t : tail)
+| C14 (en : entry) (ad : admission) (cfg : scfg) (ops : list (list hop)) (xst : list Z) (stop gone : option N) (cs : list bytes) (t : tail)
       (states : list conn_state) (actives : list (Z * Z)).
 
 Definition corr_ok (c : c14case) : bool :=
   match c with
-  | C14 en ad cfg ops gone cs t states _ => list_eqb state_eqb (sts (run_gone en ad cfg ops gone cs t)) states
+  | C14 en ad cfg ops xst stop gone cs t states _ => list_eqb state_eqb (sts (run_full en ad cfg ops xst stop gone cs t)) states
   end.
 
 Definition count_active (l : list conn_state) : nat :=
@@ -36,7 +37,7 @@ Definition count_active (l : list conn_state) : nat :=
 (* the property, judged on the implementation's hook calls *)
 Definition prop_ok (c : c14case) : bool :=
   match c with
-  | C14 _ _ _ _ _ _ _ states actives =>
+  | C14 _ _ _ _ _ _ _ _ _ states actives =>
       accepts states
       && (length actives =? count_active states)
       && forallb (fun p => Z.ltb (snd p) (fst p)) actives
